@@ -31,11 +31,11 @@ Report(ln, cs) ==
 TlsBased == tp \in {"tls", "btls", "utls"}
 TcpBased == tp \in {"tcp", "btcp", "tls", "btls", "utls"}
 \* what the remote address does in each scenario (Peer of XcmEst) and the errno the documentation promises for it
-PeerOf(s) == CASE s \in {"normal", "ctlflood"} -> "accept" [] s = "refused" -> "refuse" [] s = "silent" -> "silent"
+PeerOf(s) == CASE s \in {"normal", "ctlflood", "garbage2"} -> "accept" [] s = "refused" -> "refuse" [] s = "silent" -> "silent"
                [] s = "release" -> "late" [] s = "mute" -> "mute" [] s = "garbage" -> "garbage" [] OTHER -> "none"
 Promised(peer) == CASE peer = "refuse" -> ECONNREFUSED [] peer = "silent" -> ETIMEDOUT [] peer = "garbage" -> EPROTO [] OTHER -> 0
 
-ApiOps == {"sv", "cn", "ac", "f", "s", "r", "a", "fd", "ga", "sa", "cl"}
+ApiOps == {"sv", "cn", "ac", "f", "s", "r", "a", "fd", "ga", "sa", "cl", "vc", "vf", "vx"}
 
 \* every API call on these non-blocking sockets
 StepApi(ln) ==
@@ -54,9 +54,13 @@ StepApi(ln) ==
         Chk(~(srvc /\ ln.op # "cl" /\ ln.kp = 0 /\ ln.rd[3] = 1), "C16.spin", 0, ln.rd[3]),
         Chk(~(srvc /\ ln.op # "cl" /\ ln.kp = 1 /\ ln.rd[3] = 0), "C04.lost_wakeup", 1, ln.rd[3]),
         \* in the fault-free scenario no call ever reports a failure of the connection
-        Chk(~(scen \in {"normal", "ctlflood"} /\ ln.op \in {"f", "s", "r"} /\ ln.ret = -1 /\ ln.err # EAGAIN /\ ln.e = 1), "C04.progress", EAGAIN, ln.err),
+        Chk(~(scen \in {"normal", "ctlflood", "garbage2"} /\ ln.op \in {"f", "s", "r"} /\ ln.ret = -1 /\ ln.err # EAGAIN /\ ln.e = 1), "C04.progress", EAGAIN, ln.err),
         Chk(~(scen = "idle" /\ ln.op = "ac") \/ (ln.ret = -1 /\ ln.err = EAGAIN), "C16.accept_idle", EAGAIN, ln.err),
         Chk(ln.op # "a" \/ ln.ret = 0, "MM", 0, ln.ret),
+        \* C07: garbage fed to ANOTHER connection of the process must not make a healthy connection fail or lose messages
+        Chk(~(scen = "garbage2" /\ data /\ ln.ret = -1 /\ ln.err # EAGAIN), "C07.collateral", EAGAIN, ln.err),
+        \* C07: a connection attempt answered with garbage never becomes established
+        Chk(~(ln.op = "vf" /\ ln.ret = 0), "C07.accepted_garbage", EPROTO, 0),
         \* C06: a failure of the connection sticks: no later send / receive succeeds, and on the TCP-based transports
         \* send, receive and finish keep reporting the errno of the first failure
         Chk(~(data /\ terr[ln.e] # 0 /\ ln.op \in {"s", "r"}) \/ ln.ret = -1, "C06.sticky", terr[ln.e], ln.ret),
@@ -78,9 +82,9 @@ StepQ(ln) ==
         \* C04: a run that got stuck: no descriptor became readable although the attempt could complete or fail
         Chk(ln.stk = 0, "C04.lost_wakeup", scen, <<"est", ln.est, "term", ln.term>>),
         \* normal: established on both sides, everything sent was received in order, the close was seen
-        Chk(~(scen \in {"normal", "ctlflood"}) \/ ln.stk = 1 \/ (ln.est = <<1, 1>> /\ ln.acc = 1), "C04.progress", <<1, 1>>, ln.est),
-        Chk(~(scen \in {"normal", "ctlflood"}) \/ ln.stk = 1 \/ (ln.rcvd[1] = ln.sent[2] /\ ln.rcvd[2] = ln.sent[1] /\ ln.bado = <<0, 0>>), "C01.order", ln.sent, ln.rcvd),
-        Chk(~(scen \in {"normal", "ctlflood"}) \/ ln.stk = 1 \/ ln.cs # 0, "C04.lost_wakeup", "close", ln.cs),
+        Chk(~(scen \in {"normal", "ctlflood", "garbage2"}) \/ ln.stk = 1 \/ (ln.est = <<1, 1>> /\ ln.acc = 1), "C04.progress", <<1, 1>>, ln.est),
+        Chk(~(scen \in {"normal", "ctlflood", "garbage2"}) \/ ln.stk = 1 \/ (ln.rcvd[1] = ln.sent[2] /\ ln.rcvd[2] = ln.sent[1] /\ ln.bado = <<0, 0>>), "C01.order", ln.sent, ln.rcvd),
+        Chk(~(scen \in {"normal", "ctlflood", "garbage2"}) \/ ln.stk = 1 \/ ln.cs # 0, "C04.lost_wakeup", "close", ln.cs),
         \* failure scenarios: the attempt is reported as failed, never as established
         Chk(~(peer \in {"refuse", "silent", "garbage", "mute"} /\ (peer \notin {"mute", "garbage"} \/ TlsBased)) \/ ln.est[1] = 0, "C06.established", 0, ln.est[1]),
         Chk(~(peer \in {"refuse", "silent"} /\ ln.stk = 0) \/ t1 = prom, "C06.errno", prom, t1),
